@@ -23,6 +23,7 @@ import (
 	"testing"
 
 	"github.com/wader/fq/pkg/bitio"
+	"github.com/wader/fq/pkg/ranges"
 	"github.com/wader/fq/pkg/scalar"
 	"github.com/wader/fq/verif/lib/harness"
 	"github.com/wader/fq/verif/lib/treegen"
@@ -323,10 +324,22 @@ func isRawLeaf(n *treegen.Node) bool {
 	return isBR
 }
 
+// innerRange is the range of a value inside its own buffer by the harness's
+// own rule (not Value.InnerRange): the top value and every ordinary value
+// report their position in their buffer (the top value may have been decoded
+// from a sub-range of a larger buffer); the root of a NESTED buffer reports
+// its position in the parent buffer and covers its own buffer from bit 0.
+func innerRange(tr *treegen.Tree, n *treegen.Node) ranges.Range {
+	if n != tr.Root && n.V.IsRoot {
+		return ranges.Range{Start: 0, Len: n.V.Range.Len}
+	}
+	return n.V.Range
+}
+
 func classify(tr *treegen.Tree, seed uint64) []nodeInfo {
 	out := make([]nodeInfo, len(tr.All))
 	for i, n := range tr.All {
-		r := n.Inner()
+		r := innerRange(tr, n)
 		out[i] = nodeInfo{
 			n: n, idx: i,
 			synthetic: n.IsSynthetic(),
@@ -390,13 +403,16 @@ type checker struct {
 	tr      *treegen.Tree
 	topData []byte
 	topBits int64
-	res     *treegen.Result
-	bufs    map[bitio.ReaderAtSeeker][]byte
-	lens    map[bitio.ReaderAtSeeker]int64
+	// the bits the decode was given: the whole top buffer, or the sub-range
+	// of it the top value was decoded from
+	subStart, subLen int64
+	res              *treegen.Result
+	bufs             map[bitio.ReaderAtSeeker][]byte
+	lens             map[bitio.ReaderAtSeeker]int64
 }
 
 func newChecker(tr *treegen.Tree, topData []byte, topBits int64, res *treegen.Result) *checker {
-	return &checker{tr: tr, topData: topData, topBits: topBits, res: res, bufs: map[bitio.ReaderAtSeeker][]byte{}, lens: map[bitio.ReaderAtSeeker]int64{}}
+	return &checker{tr: tr, topData: topData, topBits: topBits, subLen: topBits, res: res, bufs: map[bitio.ReaderAtSeeker][]byte{}, lens: map[bitio.ReaderAtSeeker]int64{}}
 }
 
 // buffer returns the content and bit length of the buffer n lives in.
@@ -434,7 +450,7 @@ type expect struct {
 
 func (c *checker) expected(n *treegen.Node) expect {
 	buf, bl, err := c.buffer(n)
-	r := n.Inner()
+	r := innerRange(c.tr, n)
 	desc := fmt.Sprintf("%s (range %d:%d of a %d bit %s buffer)", n.Path(), r.Start, r.Len, bl, map[bool]string{true: "nested", false: "top"}[n.BufRoot != c.tr.Root])
 	if err != nil {
 		c.res.Failf("harness:buffer-unreadable", "%s: %v", desc, err)
@@ -504,7 +520,7 @@ func (c *checker) check(b budgetT, seed uint64) {
 	{
 		cand := make([]int, 0, len(sel))
 		for _, i := range sel {
-			if infos[i].n.Inner().Len <= 8<<20 {
+			if innerRange(tr, infos[i].n).Len <= 8<<20 {
 				cand = append(cand, i)
 			}
 		}
@@ -681,12 +697,13 @@ func (c *checker) checkValueRows(infos []nodeInfo, sel []int, rows []any, ntOut 
 		c.checkBinary("tobytesrange", x, row[9], x.e, x.n, x.p)
 		if info.n == tr.Root {
 			// the root value yields the whole input unchanged
-			wholeIn := sliceBits(c.topData, 0, c.topBits)
-			if b, n, err := treeq.BinaryBits(row[2]); err == nil && (n != c.topBits || !eqBytes(b, wholeIn)) {
-				res.Failf("root:tobits-not-the-whole-input", "root | tobits has %d bits %s, the input has %d bits %s", n, short(b), c.topBits, short(wholeIn))
+			// (= the sub-range the decode was given, when it was given one)
+			wholeIn := sliceBits(c.topData, c.subStart, c.subLen)
+			if b, n, err := treeq.BinaryBits(row[2]); err == nil && (n != c.subLen || !eqBytes(b, wholeIn)) {
+				res.Failf("root:tobits-not-the-whole-input", "root | tobits has %d bits %s, the decoded input (bits %d:%d of a %d bit buffer) has %d bits %s", n, short(b), c.subStart, c.subLen, c.topBits, c.subLen, short(wholeIn))
 			}
-			if b, err := treeq.RawOutput(row[3]); err == nil && !eqBytes(b, padLeft(wholeIn, c.topBits)) {
-				res.Failf("root:tobytes-raw-not-the-whole-input", "root | tobytes written raw is %d bytes %s, the input is %s (%d bits)", len(b), short(b), short(wholeIn), c.topBits)
+			if b, err := treeq.RawOutput(row[3]); err == nil && !eqBytes(b, padLeft(wholeIn, c.subLen)) {
+				res.Failf("root:tobytes-raw-not-the-whole-input", "root | tobytes written raw is %d bytes %s, the decoded input (bits %d:%d of a %d bit buffer) is %s", len(b), short(b), c.subStart, c.subLen, c.topBits, short(wholeIn))
 			}
 		}
 	}
